@@ -27,10 +27,20 @@ COMPONENTS = {"real": ["twisted.internet.selectreactor/pollreactor/epollreactor/
               "stub": ["kernel TCP sockets and select/poll/epoll/selector syscalls (detsim.kernel model: bounded buffers, in-flight bytes, FIN after data, RST)", "wall clock (simulated)"]}
 RULE = ("run = one simulated loopback connection on a tape-chosen reactor: listen, connect, both sides write tape-chosen patterns (0 B..2 MiB, writeSequence, timer-delayed writes), "
         "then one of loseConnection / loseWriteConnection (+ peer close) / abortConnection from either side at a tape-chosen moment; socket buffers 1 B..64 KiB; "
+        "writeSequence(list): the list stays the application's - after the call it is cleared / appended to / edited / reversed, refilled and passed again, passed to the OTHER "
+        "connection's transport, or broadcast to both transports in one turn followed by a private write (the model records what the list held at each call); "
+        "half-close with half-closeable protocols: the side that receives the FIN (often with output still queued over several reactor turns) either keeps writing and then "
+        "calls loseConnection (active), leaves its transport alone from then on (passive), or half-closes too at a moment of its own, before or after the FIN, the protocols "
+        "finishing the connection once both halves are gone (halfclose); whenever nothing moves any more (no kernel event, idle reactor, no timer) every byte given to a still "
+        "open transport must have reached the other protocol - before the scenario pushes on; "
         "non-trivial = at least one partial or short send/recv or EAGAIN occurred and data flowed")
 ASSUMPTIONS = ["the property names real loopback TCP; the claim is over the kernel MODEL (a real kernel cannot be made replayable): FIFO per direction, FIN ordered behind data, RST discards in-flight data",
                "close() with unread input is modelled as FIN (Linux would send RST); no listen backlog limit",
-               "clean ConnectionDone on both sides is demanded only in runs where no RST was generated (no data arrived at an already closed socket)"]
+               "clean ConnectionDone on both sides is demanded only in runs where no RST was generated (no data arrived at an already closed socket)",
+               "delivery of written bytes may not depend on the application touching the transport again: the stalled-with-unsent-output clause is evaluated only when no kernel event is "
+               "enabled, three further reactor turns move nothing, no timer is pending, neither protocol has had connectionLost, no RST occurred and no abortConnection was issued",
+               "a list passed to writeSequence() remains the caller's object: what the call writes is the list's content at the time of the call",
+               "both sides half-closing is exercised with half-closeable protocols only (for any other protocol the peer's FIN ends the connection and discards queued output, so no delivery is demanded)"]
 LEVEL_NOTE = ("Trusted: the kernel model (detsim/kernel.py; readiness table in DESIGN.md A.4), the scenario oracle. Real code: the four reactors, posixbase, base, tcp, abstract. "
               "A violation seen only on the model must be confirmed against real loopback sockets before it is believed.")
 
@@ -79,6 +89,11 @@ class HalfRec(Rec):
     def readConnectionLost(self):
         self.read_lost += 1
         self.sim.event(self.name, "readConnectionLost")
+        w = self.st.get("written")
+        if w is not None and w[self.name] > self.transport.getHandle().sent_total:
+            # the peer's FIN is processed while this side still has output queued in the transport
+            self.sim.probe("fin_read_with_output_queued")
+            self.sim.probe("fin_read_with_output_queued/" + self.st.get("peer_mode", "-"))
         # both halves gone (we half-closed earlier) or we were told to: a half-closeable
         # protocol has to finish the connection itself
         if self.st.get("close_on_read_lost") or self.write_lost:
@@ -87,6 +102,10 @@ class HalfRec(Rec):
     def writeConnectionLost(self):
         self.write_lost += 1
         self.sim.event(self.name, "writeConnectionLost")
+        # the peer half-closed first and now our own half-close is complete: both halves are gone
+        if self.read_lost:
+            self.sim.probe("both_halves_lost_write_last")
+            self.transport.loseConnection()
 
 
 def run(sim):
@@ -99,17 +118,22 @@ def run(sim):
     closing = sim.draw_choice(["lose", "halfclose", "abort"], "closing")
     closer = sim.draw_choice(["C", "S"], "closer")
     oneway = sim.draw_bool(0.45, "oneway")   # only the closing side writes (so no RST can be provoked by the peer's data)
-    small = min(sndbuf, rcvbuf) <= 64
+    # what the side that RECEIVES the half-close does afterwards:  active = keeps writing, then loseConnection();
+    # passive = leaves its transport alone once it has seen the FIN (the scenario closes it only when nothing moves any more);
+    # halfclose = half-closes too, at a moment of its own (before or after it sees the FIN), and never calls loseConnection()
+    # from outside: the protocols finish the connection when both halves are gone.  (Only for half-closeable protocols: for
+    # any other protocol the peer's FIN is the end of the connection, queued output included.)
+    peer_mode = sim.draw_choice(["active", "passive", "halfclose"], "peer_after_halfclose") if closing == "halfclose" and half else "active"
     unit = min(sndbuf, rcvbuf, bufsz or 65536, send_limit or 65536)   # bytes moved per syscall at best
     maxtotal = min(sim.draw_choice([2000, 200000, 2000000], "maxtotal"), max(150, unit * 120))
-    sim.config = {"reactor": kind, "sndbuf": sndbuf, "rcvbuf": rcvbuf, "bufferSize": bufsz, "half": half, "closing": closing, "closer": closer, "maxtotal": maxtotal, "oneway": oneway, "SEND_LIMIT": send_limit}
+    sim.config = {"reactor": kind, "sndbuf": sndbuf, "rcvbuf": rcvbuf, "bufferSize": bufsz, "half": half, "closing": closing, "closer": closer, "maxtotal": maxtotal, "oneway": oneway, "SEND_LIMIT": send_limit, "peer_mode": peer_mode}
     now = [0.0]
     kern = K.Kernel(sim, sndbuf=sndbuf, rcvbuf=rcvbuf)
     kern.spurious_p = sim.draw_choice([0.0, 0.0, 0.05], "spurious_p")
     patt = {"C": random.Random(sim.draw_int(0, 10**6, "pattC")).randbytes(maxtotal + 10),
             "S": random.Random(sim.draw_int(0, 10**6, "pattS")).randbytes(maxtotal + 10)}
     # a half-closeable protocol that sees the peer's FIN after a full close must close itself
-    st = {"oneway": oneway, "closer": closer, "armed": False, "bufferSize": bufsz, "close_on_read_lost": closing != "halfclose", "SEND_LIMIT": send_limit}
+    st = {"oneway": oneway, "closer": closer, "armed": False, "bufferSize": bufsz, "close_on_read_lost": closing != "halfclose", "SEND_LIMIT": send_limit, "peer_mode": peer_mode}
     protos = {}
     cls = HalfRec if half else Rec
 
@@ -147,40 +171,135 @@ def _drive(sim, kind, kern, r, now, patt, protos, sf, cf, closing, closer, half,
     addr = port.getHost()
     port_addr = ("127.0.0.1", addr.port)
     r.connectTCP("127.0.0.1", addr.port, cf)
-    written = {"C": 0, "S": 0}          # bytes handed to transport.write so far
+    written = {"C": 0, "S": 0}          # bytes handed to each side's transport so far
+    sent = {"C": bytearray(), "S": bytearray()}   # reference model: those bytes, in call order
+    cursor = {"C": 0, "S": 0}           # next unused offset of each side's pattern
+    st["written"] = written
     written_at_close = {}
-    state = {"closed_by": None, "phase": "open", "peer_closed": False, "timer_writes": 0}
+    state = {"closed_by": None, "phase": "open", "peer_closed": False, "timer_writes": 0, "sent": sent, "peer_mode": st["peer_mode"]}
     other = {"C": "S", "S": "C"}
+    app = {"kept": None}                # the application's own chunk list that it last passed to writeSequence(): [list, model of its content, side]
+
+    def take(side, n):
+        if cursor[side] + n > len(patt[side]):
+            cursor[side] = 0
+        data = patt[side][cursor[side]:cursor[side] + n]
+        cursor[side] += n
+        return data
+
+    def note(side, data):
+        sent[side] += data
+        written[side] = len(sent[side])
+
+    def can_write(side):
+        p = protos.get(side)
+        if p is None or p.lost:
+            return False
+        if st["oneway"] and side != closer and not state["closed_by"]:
+            return False
+        if state["closed_by"] == side:
+            return False  # (writes after loseWriteConnection get no verdict: do not issue them)
+        if state["peer_closed"] and side != state["closed_by"]:
+            return False
+        return written[side] < maxtotal
+
+    def split(data):
+        n = len(data)
+        a, b = n // 3, 2 * n // 3
+        return [data[:a], data[a:b], b"", data[b:]]
 
     def do_write(side, n, seq=False):
-        p = protos.get(side)
-        if p is None or p.lost or n <= 0:
+        if n <= 0 or not can_write(side):
             return
-        if st["oneway"] and side != closer and not state["closed_by"]:
-            return
-        if state["closed_by"] == side and closing != "halfclose":
-            return
-        if state["closed_by"] == side and closing == "halfclose":
-            return  # writes after loseWriteConnection get no verdict: do not issue them
-        if state["peer_closed"] and side != state["closed_by"]:
-            return
+        p = protos[side]
         n = min(n, maxtotal - written[side])
-        if n <= 0:
-            return
-        off = written[side]
-        sim.event(side, "writeSequence" if seq and n >= 3 else "write", n)
-        data = patt[side][off:off + n]
-        written[side] += n
         if seq and n >= 3:
-            a, b = n // 3, 2 * n // 3
-            parts = [data[:a], data[a:b], b"", data[b:]]
             # any iterable of bytes is a legal argument
             kind = sim.draw_choice(["list", "tuple", "generator"], "iovec")
+            if kind == "list":
+                write_list(side, n)
+                return
+            parts = split(take(side, n))
+            sim.event(side, "writeSequence", n)
+            note(side, b"".join(parts))
             if kind == "generator":
                 sim.probe("writeSequence_one_shot_iterable")
-            p.transport.writeSequence(parts if kind == "list" else tuple(parts) if kind == "tuple" else (x for x in parts))
+            p.transport.writeSequence(tuple(parts) if kind == "tuple" else (x for x in parts))
         else:
+            data = take(side, n)
+            sim.event(side, "write", n)
+            note(side, data)
             p.transport.write(data)
+
+    # writeSequence(<a list>): the list object stays the application's.  It may keep it, edit it, refill it and pass it
+    # again - to the same transport or to the other connection's.  What a call writes is what the list held when the call
+    # was made; the model keeps its own record (`content`) of what the application put into its list.
+    def emit_list(side, lst, content):
+        data = b"".join(content)
+        sim.event(side, "writeSequence", "list", len(data))
+        note(side, data)
+        protos[side].transport.writeSequence(lst)
+
+    def write_list(side, n):
+        kept = app["kept"]
+        room = maxtotal - written[side]
+        again = kept is not None and 0 < sum(len(c) for c in kept[1]) <= room
+        source = sim.draw_weighted([("fresh", 5), ("same", 2 if again else 0), ("refill", 2 if kept else 0)], "list_source")
+        if source == "fresh":
+            lst = split(take(side, n))
+            content = list(lst)
+        else:
+            # a list object that was already passed to writeSequence() earlier in the run (on this or on the other connection)
+            lst, content = kept[0], kept[1]
+            sim.probe("list_object_written_again")
+            if kept[2] != side:
+                sim.probe("list_object_written_to_both_transports")
+            if source == "refill":
+                parts = split(take(side, n))
+                if sim.draw_bool(0.5, "refill_how"):
+                    lst.clear()
+                    lst.extend(parts)
+                else:
+                    lst[:] = parts
+                content[:] = parts
+        emit_list(side, lst, content)
+        app["kept"] = [lst, content, side]
+        o = other[side]
+        if sim.draw_bool(0.25, "broadcast") and can_write(o) and sum(len(c) for c in content) <= maxtotal - written[o]:
+            # the same chunk list goes out on both connections in one turn, then something private on one of them
+            sim.probe("list_object_written_to_both_transports")
+            sim.probe("list_broadcast")
+            emit_list(o, lst, content)
+            if sim.draw_bool(0.6, "private_after_broadcast"):
+                do_write(sim.draw_choice([side, o], "who"), sim.draw_choice([1, 2, 5, 17, 100], "size"))
+        # the call has returned: the list is the application's again
+        edit = sim.draw_weighted([("none", 5), ("clear", 2), ("append", 1), ("replace", 1), ("pop", 1), ("del", 1), ("reverse", 1)], "list_edit")
+        if edit != "none":
+            sim.event(side, "list", edit)
+            sim.probe("list_edited_after_writeSequence")
+        if edit == "clear":
+            lst.clear()
+            content.clear()
+        elif edit == "del":
+            del lst[:]
+            del content[:]
+        elif edit == "append":
+            extra = take(side, sim.draw_int(1, 8, "extra"))
+            lst.append(extra)
+            content.append(extra)
+        elif edit == "replace":
+            extra = take(side, sim.draw_int(1, 8, "extra"))
+            lst[-1] = extra
+            content[-1] = extra
+        elif edit == "pop":
+            lst.pop()
+            content.pop()
+        elif edit == "reverse":
+            lst.reverse()
+            content.reverse()
+        if sim.draw_bool(0.3, "write_after_list"):
+            # more output on the same transport before the reactor had a chance to flush
+            do_write(side, sim.draw_choice([1, 2, 5, 17, 100], "size"))
 
     def close_now():
         side = closer
@@ -213,7 +332,44 @@ def _drive(sim, kind, kern, r, now, patt, protos, sf, cf, closing, closer, half,
         sim.event(side, "lose-after-halfclose")
         p.transport.loseConnection()
 
+    def peer_halfclose():
+        # the peer half-closes as well (it may not have seen the closer's FIN yet, and may have output queued)
+        side = other[closer]
+        p = protos.get(side)
+        if p is None or p.lost or state["peer_closed"]:
+            return
+        state["peer_closed"] = True
+        written_at_close[side] = written[side]
+        sim.event(side, "halfclose-too")
+        sim.probe("both_sides_halfclose")
+        p.transport.loseWriteConnection()
+
+    def stalled():
+        """Nothing moves any more (no kernel event enabled, the reactor idle, no timer).  Whatever an open transport was
+        given must by now have reached the other protocol: delivery may not depend on the application touching the
+        transport again.  Returns True when the situation was not quiescent after all."""
+        if closing == "abort" and state["closed_by"]:
+            return False
+        for x in ("C", "S"):
+            px, py = protos.get(x), protos.get(other[x])
+            if px is None or py is None:
+                return False
+        for x in ("C", "S"):
+            px, py = protos[x], protos[other[x]]
+            if any(k.startswith("rst") for k in sim.faults) or px.lost or py.lost or len(py.got) == written[x]:
+                continue
+            # make sure: a few more turns of the reactor
+            for _ in range(3):
+                R.iterate(r)
+            if kern.enabled() or r.getDelayedCalls() or px.lost or py.lost or len(py.got) == written[x]:
+                return True
+            sim.fail("stalled-with-unsent-output", "%s/%s" % (kind, closing if state["closed_by"] else "open"),
+                     "%s was given %d bytes, %s received %d, and nothing is in flight or scheduled (closed_by=%s peer_mode=%s %s.read_lost=%d)"
+                     % (x, written[x], other[x], len(py.got), state["closed_by"], peer_mode, x, px.read_lost))
+        return False
+
     st["close_now"] = close_now
+    peer_mode = st["peer_mode"]
     sizes = [1, 2, 5, 17, 100, 1000, 5000, 70000, 300000]
     budget = sim.draw_int(5, 60, "app_ops")
     steps = 0
@@ -234,10 +390,19 @@ def _drive(sim, kind, kern, r, now, patt, protos, sf, cf, closing, closer, half,
             opts.append(("timer-write", 1))
             opts.append(("close", 1 if budget < 40 else 0))
         if state["closed_by"] and closing == "halfclose" and not state["peer_closed"] and both and not protos[other[closer]].lost:
-            opts.append(("peer-write", 2))
-            # the peer only closes after it has seen the closer's FIN (else it would cut the closer's data short itself)
-            if protos[other[closer]].read_lost:
-                opts.append(("peer-close", 1))
+            seen_fin = protos[other[closer]].read_lost
+            if peer_mode == "active":
+                opts.append(("peer-write", 2))
+                # the peer only closes after it has seen the closer's FIN (else it would cut the closer's data short itself)
+                if seen_fin:
+                    opts.append(("peer-close", 1))
+            elif peer_mode == "passive":
+                # once the FIN has been seen the application leaves the transport alone
+                if not seen_fin:
+                    opts.append(("peer-write", 2))
+            else:
+                opts.append(("peer-write", 2))
+                opts.append(("peer-halfclose", 1))
         op = sim.draw_weighted(opts, "op")
         progress_before = (sum(s.sent_total + s.recv_total for s in kern.all), len(kern.all), sum(len(p.lost) for p in protos.values()))
         if op == "iterate":
@@ -275,6 +440,8 @@ def _drive(sim, kind, kern, r, now, patt, protos, sf, cf, closing, closer, half,
             do_write(other[closer], sim.draw_choice(sizes[:6], "size"))
         elif op == "peer-close":
             peer_close()
+        elif op == "peer-halfclose":
+            peer_halfclose()
         # quiescence detection: nothing in the kernel to do, an iteration made no progress, no timers
         after = (sum(s.sent_total + s.recv_total for s in kern.all), len(kern.all), sum(len(p.lost) for p in protos.values()))
         if op == "iterate" and after == progress_before and not kern.enabled():
@@ -287,6 +454,9 @@ def _drive(sim, kind, kern, r, now, patt, protos, sf, cf, closing, closer, half,
                 continue
             idle_rounds += 1
             if idle_rounds >= 2:
+                if stalled():
+                    idle_rounds = 0
+                    continue
                 # nothing more will happen by itself: push the scenario forward
                 if both and not state["closed_by"]:
                     state["phase"] = "closing"
@@ -294,11 +464,15 @@ def _drive(sim, kind, kern, r, now, patt, protos, sf, cf, closing, closer, half,
                     close_now()
                     idle_rounds = 0
                     continue
-                if (both and closing == "halfclose" and not state["peer_closed"] and protos[other[closer]].read_lost
-                        and not protos[other[closer]].lost):
-                    peer_close()
-                    idle_rounds = 0
-                    continue
+                if both and closing == "halfclose" and not state["peer_closed"] and not protos[other[closer]].lost:
+                    if peer_mode == "halfclose":
+                        peer_halfclose()
+                        idle_rounds = 0
+                        continue
+                    if protos[other[closer]].read_lost:
+                        peer_close()
+                        idle_rounds = 0
+                        continue
                 break
         else:
             idle_rounds = 0
@@ -319,7 +493,7 @@ def _oracle(sim, kind, kern, protos, cf, written, wac, patt, closing, closer, ha
         o = other[side]
         sim.check("connectionLost-exactly-once", len(p.lost) == 1, wit, "%s.connectionLost called %d times" % (side, len(p.lost)))
         sim.check("no-data-after-connectionLost", p.data_after_lost == 0, wit, "%s got dataReceived after connectionLost" % side)
-        sent = patt[o][:written[o]]
+        sent = bytes(state["sent"][o])
         got = bytes(p.got)
         sim.check("received-is-prefix-in-order", sent.startswith(got), wit,
                   lambda: "%s received %d bytes that are not a prefix of the %d bytes %s wrote (first diff at %d)" % (side, len(got), len(sent), o, _firstdiff(got, sent)))
@@ -356,6 +530,10 @@ def _oracle(sim, kind, kern, protos, cf, written, wac, patt, closing, closer, ha
             if not rst and not state.get("closer_also_lost"):
                 sim.check("halfclose-peer-bytes-delivered", len(c.got) == written[other[closer]], wit,
                           "peer wrote %d bytes (some after the half-close), closer received %d" % (written[other[closer]], len(c.got)))
+                if state.get("peer_mode") == "halfclose":
+                    # both sides half-closed: each is told once about either half
+                    sim.check("readConnectionLost-once", c.read_lost == 1, wit, "closer.readConnectionLost called %d times (the peer half-closed too)" % c.read_lost)
+                    sim.check("writeConnectionLost-once", pr.write_lost == 1, wit, "peer.writeConnectionLost called %d times (it half-closed too)" % pr.write_lost)
         if not rst:
             for side in ("C", "S"):
                 sim.check("reason-clean-after-halfclose", protos[side].lost[0].check(error.ConnectionDone) is not None, wit,
@@ -364,7 +542,7 @@ def _oracle(sim, kind, kern, protos, cf, written, wac, patt, closing, closer, ha
     sim.check("no-fd-leak", not leaked, wit, "sockets still open in the kernel model at the end: %r" % leaked)
     io_faults = sum(sim.faults.get(k, 0) for k in ("partial_send", "short_send", "short_recv")) + sim.probes.get("send_eagain", 0) + sim.probes.get("recv_eagain", 0)
     sim.nontrivial = io_faults > 0 and (written["C"] + written["S"]) > 0
-    sim.state((kind, closing, closer, half, rst, min(io_faults, 3)))
+    sim.state((kind, closing, closer, half, rst, min(io_faults, 3), state.get("peer_mode")))
 
 
 def _firstdiff(a, b):
@@ -372,3 +550,17 @@ def _firstdiff(a, b):
         if a[i] != b[i]:
             return i
     return min(len(a), len(b))
+
+
+# Sensitivity (tools/mutate.py C15 quick ...), all on the quick tier.
+MUTANTS = [
+    "posixbase._disconnectSelectable: removeWriter() also on the read-side half-close branch (seed C15-r4a) -> CAUGHT (stalled-with-unsent-output:*/halfclose, in the active, passive and "
+    "both-sides-half-close variants: the FIN is read while output is queued and the application does not touch the write side again)",
+    "tcp.Connection.readConnectionLost: stopWriting() after the protocol's readConnectionLost -> CAUGHT (stalled-with-unsent-output:asyncio/halfclose, connectionLost-exactly-once:poll/lose)",
+    "epollreactor._remove: keeps `event` instead of `antievent` when the other direction stays registered -> CAUGHT (stalled-with-unsent-output:epoll/*, reason-clean-after-halfclose:epoll/halfclose)",
+    "abstract.FileDescriptor.writeSequence: adopts the caller's list as its pending buffer when that is empty (seed C15-r4b) -> CAUGHT (received-is-prefix-in-order:*: list cleared/edited after "
+    "the call, or the same list written to both transports followed by a private write)",
+    "posixbase inRead bookkeeping (seed C15-inread-bookkeeping) -> CAUGHT (stalled-with-unsent-output:poll/lose)",
+    "abstract.loseConnection while a half-close is pending (seed C15-r2) -> CAUGHT (all-bytes-before-halfclose-delivered:*/halfclose)",
+    "abstract.doWrite ignoring parked data (seed C15-r3) -> CAUGHT (all-bytes-before-halfclose-delivered, stalled-with-unsent-output:*/open)",
+]
